@@ -779,11 +779,47 @@ pub fn run(ctx: &Ctx) -> i32 {
         if v == Variant::P3aShaStr {
             continue;
         }
-        for &(m, n) in &[(256usize, nbig), (64, 300), (16, 50)] {
+        for &(m, n) in &[(256usize, nbig), (64, 300), (16, 50), (256, 150), (64, 40), (1024, 30)] {
             let ns = if v == Variant::P3aShaU64 { nsets / 4 } else { nsets };
             for f in large_set_orders(v, m, ns, n, &mut st) {
                 ctx.violation(&f.key, &f.what, f.case);
             }
+        }
+    }
+    // ProbMinHash3 == ProbMinHash3a for large signature lengths that are not powers of two (integer range sampling paths
+    // differ there): tiny sets make every item draw ~ m ln m positions
+    let big_ms: Vec<(usize, u64)> = ctx.pick(vec![(5000, 300), (2000, 300), (3001, 200)], vec![(5000, 3000), (2000, 3000), (3001, 2000), (12289, 500)]);
+    for (m, nsets) in big_ms {
+        let mut differ = 0u64;
+        let mut first: Option<(Vec<(u64, f64)>, usize)> = None;
+        let res: Vec<(bool, Vec<(u64, f64)>, usize)> = (0..nsets)
+            .into_par_iter()
+            .map(|si| {
+                let ws = vec![(37_000_000 + 2 * si, 1.0), (37_000_000 + 2 * si + 1, 2.0)];
+                let a = run_variant(Variant::P3, Entry::Item, m, &ws).unwrap();
+                let b = run_variant(Variant::P3a, Entry::IdxMap, m, &ws).unwrap();
+                let nd = match (&a, &b) {
+                    (Ok(x), Ok(y)) => x.0.iter().zip(y.0.iter()).filter(|(p, q)| p != q).count(),
+                    _ => m,
+                };
+                (a != b, ws, nd)
+            })
+            .collect();
+        st.execs += 2 * nsets;
+        for (d, ws, nd) in res {
+            if d {
+                differ += 1;
+                if first.is_none() {
+                    first = Some((ws, nd));
+                }
+            }
+        }
+        if let Some((ws, nd)) = first {
+            ctx.violation(
+                "p3-vs-p3a",
+                &format!("m={}: ProbMinHash3 and ProbMinHash3a differ on {} of {} two-item sets; first: {:?} differs in {} positions", m, differ, nsets, ws, nd),
+                json!({"kind": "p3p3a", "m": m, "ws": ws_json(&ws)}),
+            );
         }
     }
     // ProbMinHash3 and ProbMinHash3a give the same signature
@@ -840,7 +876,7 @@ pub fn run(ctx: &Ctx) -> i32 {
         "exhaustive": true,
         "evaluations": st.execs,
         "distinct_nontrivial": st.distinct_sigs,
-        "rule": "for ProbMinHash2, 3, 3a (Fnv and no-op hashers), 3a-Sha (u64 and String keys), m in {2,3,4,8,16,(33)}: every non-empty weighted set over 4 (5) items x weights {absent,0.5,1,3,1e-300,1e300}, ALL insertion orders, every entry point (hash_item, hash_wset, IndexMap, std HashMap), every 2-way batch split, every re-insertion of an already inserted pair at every later point; registers (hook H2) must equal the position-wise minimum and the signature the argmin of the REAL single-item runs (exact; bit-equal ties are classified and only checked for membership), every position holds an item of the set; plus forced near-ties (weights tuned from the real single-item runs so that two items differ by 1e-9 .. 3e-15 relative at a chosen position, both orders), weight scaling by 2^k, the union clause on sets up to 300 items, ProbMinHash3 == ProbMinHash3a on all 1295 sets, all subsets of 4 items in all orders with a placeholder object that is itself an item id, 40 (300) sets of 2000 / 300 / 50 items with 13 weight classes in forward / reversed / shuffled order through every entry point (m = 256 / 64 / 16), and single items with weights down to the smallest normal float; distinct = distinct signatures",
+        "rule": "for ProbMinHash2, 3, 3a (Fnv and no-op hashers), 3a-Sha (u64 and String keys), m in {2,3,4,8,16,(33)}: every non-empty weighted set over 4 (5) items x weights {absent,0.5,1,3,1e-300,1e300}, ALL insertion orders, every entry point (hash_item, hash_wset, IndexMap, std HashMap), every 2-way batch split, every re-insertion of an already inserted pair at every later point; registers (hook H2) must equal the position-wise minimum and the signature the argmin of the REAL single-item runs (exact; bit-equal ties are classified and only checked for membership), every position holds an item of the set; plus forced near-ties (weights tuned from the real single-item runs so that two items differ by 1e-9 .. 3e-15 relative at a chosen position, both orders), weight scaling by 2^k, the union clause on sets up to 300 items, ProbMinHash3 == ProbMinHash3a on all 1295 sets and on hundreds of two-item sets at m = 5000, 2000, 3001 (12289), all subsets of 4 items in all orders with a placeholder object that is itself an item id, 40 (300) sets of 2000 / 300 / 50 items with 13 weight classes in forward / reversed / shuffled order through every entry point (m = 256 / 64 / 16, and n below m: 150 / 40 / 30 items at m = 256 / 64 / 1024), and single items with weights down to the smallest normal float; distinct = distinct signatures",
         "weighted_sets": st.sets,
         "forced_near_ties": nears,
         "exact_ties_classified": st.ties,
